@@ -454,7 +454,7 @@ func formatLayers(tier string) []Layer {
 	// V1: Text/Append against the reference formatter
 	{
 		var base []*Opnd
-		k := 2
+		k := 3
 		if thorough {
 			k = 4
 		}
